@@ -160,12 +160,29 @@ def pick_names(rng, k, shapes, avoid=()):
     return out
 
 
-def gen_method(rng, name, shape, lib, gs, recv_kinds, own_names=False, allow_async=True, allow_localgen=True, use_prob=0.5, allow_self_ty=True):
+SELF_PARAMS = [("other", "Self", ["other"]), ("o2", "Option<Self>", ["o2"]), ("(sa, sb)", "(Self, u8)", ["sa", "sb"]), ("vs", "Vec<Self>", ["vs"])]
+SELF_RETS = ["Self", "Option<Self>", "(Self, u8)", "Vec<Self>"]
+
+
+def gen_method(rng, name, shape, lib, gs, recv_kinds, own_names=False, allow_async=True, allow_localgen=True, use_prob=0.5, allow_self_ty=True,
+               self_prob=0.0, ref_use_prob=None, short=False):
+    """self_prob: chance that a &self / &mut self method mentions `Self` in a parameter type and/or its return type;
+    ref_use_prob: use_prob for reference methods only (0.0 = no reference method names a generic parameter literally);
+    short: at most two simple parameters (keeps the printed signature on one line)"""
     recv = rng.choice(recv_kinds)
-    pool = type_pool(gs) if rng.random() < use_prob else list(BASE_TYPES)
+    is_ref = recv in ("&self", "&mut self")
+    up = ref_use_prob if (ref_use_prob is not None and is_ref) else use_prob
+    pool = type_pool(gs) if rng.random() < up else list(BASE_TYPES)
     names = {"used": set()}
-    nparams = rng.choice([0, 0, 1, 1, 2, 2, 3, 4])
-    params = [gen_pattern(rng, pool, names, own_names) for _ in range(nparams)]
+    nparams = rng.choice([0, 0, 1, 1, 2]) if short else rng.choice([0, 0, 1, 1, 2, 2, 3, 4])
+    if short:
+        params = []
+        for _ in range(nparams):
+            cand = [n for n in PARAM_NAMES if n not in names["used"]]
+            n = rng.choice(cand); names["used"].add(n)
+            params.append((n, rng.choice(pool), "ident", [n]))
+    else:
+        params = [gen_pattern(rng, pool, names, own_names) for _ in range(nparams)]
     if sum(1 for p in params if p[2] == "rest_only") > 1:
         params = [p for p in params if p[2] != "rest_only"]
     ret = rng.choice([None, None, rng.choice(RET_TYPES), rng.choice(pool)])
@@ -173,6 +190,16 @@ def gen_method(rng, name, shape, lib, gs, recv_kinds, own_names=False, allow_asy
         ret = None
     if allow_self_ty and recv == "static" and rng.random() < 0.15:
         ret = "Self"
+    self_use = []
+    if self_prob and is_ref and rng.random() < self_prob:
+        how = rng.choice(["param", "ret", "both"])
+        if how in ("param", "both"):
+            pt, ty, bound = rng.choice(SELF_PARAMS)
+            params.append((pt, ty, "self_ty", bound))
+            self_use.append("param:" + ty)
+        if how in ("ret", "both"):
+            ret = rng.choice(SELF_RETS)
+            self_use.append("ret:" + ret)
     is_async = allow_async and lib != "std" and rng.random() < 0.25
     localgen = allow_localgen and recv in ("&self", "&mut self", "self") and rng.random() < 0.15
     vis = rng.choice(["pub", "pub", "pub", "pub(crate)", "pub(super)", "pub(in crate)", ""])
@@ -190,11 +217,11 @@ def gen_method(rng, name, shape, lib, gs, recv_kinds, own_names=False, allow_asy
     text = "%s%s%s { todo!() }" % (doc, vis + " " if vis else "", sig)
     kind = {"&self": "ref", "&mut self": "ref", "self": "slf", "mut self": "slf", "static": "stat"}[recv]
     return {"name": name, "shape": shape, "recv": recv, "kind": kind, "params": params, "ret": ret, "async": is_async, "localgen": localgen,
-            "vis": vis, "public": vis != "", "sig": sig, "text": text}
+            "vis": vis, "public": vis != "", "sig": sig, "text": text, "self_use": self_use}
 
 
 def gen_program(rng, lib=None, family=False, lifetimes=False, shapes=None, own_names=False, max_gen=4, allow_slf=True,
-                p_generic=0.7, use_prob=0.5, allow_localgen=True, allow_self_ty=True, options=True):
+                p_generic=0.7, use_prob=0.5, allow_localgen=True, allow_self_ty=True, options=True, self_prob=0.0, ref_use_prob=None, short=False):
     """one whole program; returns dict with texts and a description"""
     lib = lib or rng.choice(LIBS if not family else ["std", "tokio", "async_std"])
     shapes = shapes or ASCII_SHAPES
@@ -215,7 +242,7 @@ def gen_program(rng, lib=None, family=False, lifetimes=False, shapes=None, own_n
             recv_kinds += ["self", "mut self"]
     names = pick_names(rng, k, shapes)
     ms = [gen_method(rng, n, sh, lib, gs, recv_kinds, own_names, allow_localgen=allow_localgen and not family, use_prob=use_prob,
-                     allow_self_ty=allow_self_ty) for n, sh in names]
+                     allow_self_ty=allow_self_ty, self_prob=self_prob, ref_use_prob=ref_use_prob, short=short) for n, sh in names]
     if family:
         for m in ms:
             m["async"] = m["async"]
@@ -366,6 +393,11 @@ def model_methods(p, sel):
     return out
 
 
+def self_ty_tokens(p):
+    """tokens of the impl's self type (what `Self` is replaced by before GenWork::retain)"""
+    return sig_tokens(p["actor_ty"])
+
+
 def private_params(p, sel):
     """Python rendering of Gen/Generics.v spec_gen (used for classification only): names of the private parameters"""
     ms = model_methods(p, sel)
@@ -375,6 +407,8 @@ def private_params(p, sel):
     for k, lg, toks in ms:
         if k == "ref" and not lg:
             used.update(toks)
+            if "Self" in toks:
+                used.update(self_ty_tokens(p))
     return [n for k, n, _ in p["generics"] if k != "const" and n not in used]
 
 
@@ -411,4 +445,28 @@ def gen_mostly_clean(rng, keep_known=0.08, **kw):
         p = gen_program(rng, **kw)
         if known_class(p) is None or rng.random() < keep_known:
             return p
+    return p
+
+
+def gen_self_program(rng, mode, clean=True, **kw):
+    """generic actor whose &self / &mut self methods mention `Self` in parameter / return types.
+    mode "only": no reference method names a type parameter literally (static fns may); mode "mix": some do.
+    No self-consuming methods and no method-local generics (either would make Script carry all parameters anyway);
+    short signatures (stay clear of the includes-line-wrap class)."""
+    args = dict(family=False, lifetimes=False, shapes=["plain", "snake", "digit", "lead_us"], own_names=False, max_gen=4, allow_slf=False,
+                p_generic=1.0, use_prob=0.5, allow_localgen=False, allow_self_ty=True, self_prob=0.6, short=True,
+                ref_use_prob=(0.0 if mode == "only" else 0.5))
+    args.update(kw)
+    p = None
+    for _ in range(60):
+        p = gen_program(rng, **args)
+        if not any(k == "type" for k, _, _ in p["generics"]):
+            continue
+        sel = set(p["selected_sets"][0])
+        if not any(m["self_use"] and m["name"] in sel for m in p["methods"]):
+            continue
+        if clean and known_class(p) is not None:
+            continue
+        break
+    p["self_mode"] = mode
     return p
